@@ -72,6 +72,19 @@ def run(tier):
                 chk.violation("periodic-axis:%s" % c["mode"], "value along a periodic coordinate differs from the cyclic reference", dict(ctx, **bad))
             if any(abs(x) > 360 for x in c["x"]):
                 nontrivial += 1
+            # the same case through interpolate_periodic with a periodic abscissa (the data-frame / track layer); no missing nodes there
+            if c["mode"] == "linear" and not any(c["nan"]):
+                try:
+                    gp = interpolate_periodic(np.array(c["xp"], dtype="float64"), np.array([float(v) for v in c["f"]]), np.array(c["x"], dtype="float64"), x_period=360)
+                except Exception as e:
+                    chk.violation("raise:interpolate_periodic:x_period:%s" % type(e).__name__, "interpolate_periodic(x_period=360) raised", dict(ctx, error=str(e)[:300]))
+                    continue
+                evals += 1
+                for k in range(len(c["x"])):
+                    if not ic.accepts(c["exp"][k], float(gp[k])):
+                        chk.violation("interpolate_periodic:x_period", "interpolate_periodic on a periodic abscissa differs from the cyclic reference",
+                                      dict(ctx, target=float(c["x"][k]), got=float(gp[k]), accepted=c["exp"][k]))
+                        break
 
         # gridded data at track points across the antimeridian (all coordinates interpolated) -------------------------
         sub = [c for c in cases if c["mode"] == "linear" and c["xp"][0] < c["xp"][-1]]
